@@ -15,13 +15,14 @@
    branch are kept); [fix = false] is the pinned tree, where
    `>=*/alsa-*-1.1.7:0` and `>=*/alsa-*-1.1.7::gentoo` silently drop `:0` / `::gentoo`.
 
-   DOMAIN: texts of code points < 128 ([\w] is modelled on ASCII only), no transitive USE deps
-   (`[x?]`, `[x=]`: result [EUnmodelled]). *)
+   DOMAIN: any code points except non-ASCII digits (C03's parser model reads [\d] / isdigit as ASCII
+   digits); no transitive USE deps (`[x?]`, `[x=]`: result [EUnmodelled]). *)
 From Coq Require Import List NArith ZArith Bool Arith.
 From Coq Require Strings.Byte.
 Import ListNotations.
 From Verif Require Import Base.Val C01.Model_C01 C04.Model_C04.
 From Verif Require C03.Model_C03.
+From Verif Require Import gen.Tables_C44.
 Local Open Scope N_scope.
 
 (* ------------------------------------------------------------------ characters, strings *)
@@ -39,9 +40,12 @@ Fixpoint lstrip (s : str) : str :=
   match s with x :: t => if is_space x then lstrip t else s | [] => [] end.
 Definition strip (s : str) : str := List.rev (lstrip (List.rev (lstrip s))).
 
-(* [\w] on ASCII *)
+(* [\w] of a str pattern: ASCII alphanumerics and underscore, and the Unicode word characters of the
+   running Python (gen/Tables_C44.v: every code point >= 128 that re.match(r"\w", chr(c)) accepts,
+   regenerated on every run) *)
 Definition is_word (c : N) : bool :=
-  ((48 <=? c) && (c <=? 57)) || ((65 <=? c) && (c <=? 90)) || ((97 <=? c) && (c <=? 122)) || (c =? 95).
+  ((48 <=? c) && (c <=? 57)) || ((65 <=? c) && (c <=? 90)) || ((97 <=? c) && (c <=? 122)) || (c =? 95)
+  || Model_C03.in_ranges uni_word_ranges c.
 (* [\w+-.] : the range "+-." is  + , - .  *)
 Definition is_glob_char (c : N) : bool := is_word c || ((43 <=? c) && (c <=? 46)).
 
@@ -113,10 +117,12 @@ Fixpoint rx_match (items : list rx) (s : str) : bool :=
   end.
 
 (* the pattern text (StrRegex.regex), for the structural comparison *)
+(* re.escape touches only its fixed list of ASCII specials; of those a valid glob token can contain
+   + - . and a final newline *)
 Definition rx_escape (c : N) : str :=
   if c =? c_star then [46; 42]
-  else if is_word c || (c =? 44) then [c]
-  else [92; c].
+  else if (c =? 43) || (c =? 45) || (c =? 46) || (c =? c_nl) then [92; c]
+  else [c].
 Definition rx_text (tok : str) : str := 94 :: flat_map rx_escape tok ++ [36].
 
 Inductive cg := CGNone | CGExact (s : str) | CGRegex (tok : str) | CGErr.
